@@ -460,11 +460,11 @@ theorem extension_merge_exact {E α β} (errE : Err) (bf : α → R β) (name : 
 
 /-- instance: `_extend_enum_type` — a valid set of `extend enum` blocks yields the base values followed by the
     new values in document order -/
-theorem extend_enum_exact (env : Env) (exts : List TypeDef) (t : TypeD) (hk : t.kind = .enum)
+theorem extend_enum_exact (env envX : Env) (hide : Option String) (exts : List TypeDef) (t : TypeD) (hk : t.kind = .enum)
     (hkinds : ∀ e ∈ exts, e.name = t.name → e.kind = .enum) (news : TypeDef → List EnumValD)
     (hb : ∀ e ∈ exts.filter (·.name == t.name), e.values.mapM buildEnumValue = .ok (news e))
     (hn : ((t.values ++ (exts.filter (·.name == t.name)).flatMap news).map (·.name)).Nodup) :
-    extendType env exts t = .ok { t with values := t.values ++ (exts.filter (·.name == t.name)).flatMap news } := by
+    extendTypeX env envX hide exts t = .ok { t with values := t.values ++ (exts.filter (·.name == t.name)).flatMap news } := by
   have hmine : ((exts.filter (·.name == t.name)).any fun e => e.kind != t.kind) = false := by
     rw [List.any_eq_false]
     intro e he
@@ -472,7 +472,7 @@ theorem extend_enum_exact (env : Env) (exts : List TypeDef) (t : TypeD) (hk : t.
     simp [hkinds e he.1 he.2, hk]
   have := extension_merge_exact (.lib .ext) buildEnumValue (·.name) (·.values) (exts.filter (·.name == t.name)) t.values news hb hn
   rw [hk] at hmine
-  unfold extendType
+  unfold extendTypeX
   simp only [hmine, failIf, Bool.false_eq_true, if_false, hk]
   rw [this]
   rfl
